@@ -1,5 +1,6 @@
 // emit_purefuns: Gen/PureFuns.v - tie (C).  For a configured list of pure arithmetic Go functions
-// (pureFunSpecs in emit_purefuns_specs.go) the type-checked AST is translated, statement by
+// (pureFunSpecs in emit_purefuns_specs.go; signatures, store reads and the printer are in
+// emit_purefuns_driver.go) the type-checked AST is translated, statement by
 // statement, into one shallow-embedded Gallina definition per function, written only in the
 // vocabulary of coq/Lib/DecArith.v, coq/Lib/Base.v and coq/Lib/GoSem.v.  The per-property files
 // coq/Properties/TieCxx.v prove each regenerated definition equal, for ALL inputs, to the
@@ -127,22 +128,22 @@ type pfFun struct {
 	pkg     *packages.Package
 	decl    *ast.FuncDecl
 	obj     *types.Func
-	keeper  bool        // method of a keeper: calls through the receiver are store reads (inputs)
-	recvObj *types.Var  // the receiver variable
-	fields  []*types.Var // scalar fields of a struct receiver, in declaration order
-	params  []*types.Var // scalar parameters, in order (blank and context parameters are dropped)
-	dropped map[int]bool // indices of dropped parameters
+	keeper  bool                // method of a keeper: calls through the receiver are store reads (inputs)
+	recvObj *types.Var          // the receiver variable
+	fields  []*types.Var        // scalar fields of a struct receiver, in declaration order
+	params  []*types.Var        // scalar parameters, in order (blank and context parameters are dropped)
+	dropped map[int]bool        // indices of dropped parameters
 	structP map[*types.Var]bool // struct-typed parameters (fields become inputs on demand)
-	resK    []string    // result kinds
+	resK    []string            // result kinds
 	// filled by the translation
-	fixed  []pfParam
-	extra  []pfParam // inputs discovered in the body (struct fields, store reads), in order of first use
-	extraK map[string]string // key -> Coq name
-	body   string
-	unrec  []string
-	deps   []*pfFun
-	done   bool
-	busy   bool
+	fixed    []pfParam
+	extra    []pfParam         // inputs discovered in the body (struct fields, store reads), in order of first use
+	extraK   map[string]string // key -> Coq name
+	body     string
+	unrec    []string
+	deps     []*pfFun
+	done     bool
+	busy     bool
 	errSites map[token.Pos]int
 }
 
@@ -159,17 +160,16 @@ func (e pfEnv) with(o types.Object, v string) pfEnv {
 
 // per-function translation state (swapped when a callee is translated on demand)
 type pfState struct {
-	f         *pfFun
-	pkg       *packages.Package
-	used      map[string]bool // Coq names in use
-	binder    map[string]bool // names introduced by an obind (not by a let or a parameter)
-	adopted   map[string]bool // binders that already stand for a Go variable
-	callHints []string
+	f            *pfFun
+	pkg          *packages.Package
+	used         map[string]bool // Coq names in use
+	binder       map[string]bool // names introduced by an obind (not by a let or a parameter)
+	adopted      map[string]bool // binders that already stand for a Go variable
+	callHints    []string
 	callHintsFor *ast.CallExpr
-	switchTag []string
-	closure   int
-	pure      int
-	loop      int
+	closure      int
+	pure         int
+	loop         int
 }
 
 type pfTr struct {
@@ -1673,8 +1673,6 @@ func (t *pfTr) switchStmt(x *ast.SwitchStmt, en pfEnv, k func(pfEnv) string) str
 			return t.unrec(x, "switch on a tag that is not a native integer")
 		}
 		return t.expr(x.Tag, en, "", func(tag string) string {
-			t.switchTag = append(t.switchTag, tag)
-			defer func() { t.switchTag = t.switchTag[:len(t.switchTag)-1] }()
 			y := *x
 			y.Tag = nil
 			return t.switchStmtTagged(&y, tag, en, k)
